@@ -213,6 +213,7 @@ func (st *State) exec(g *G, fr *Frame, in ssa.Instruction) bool {
 		if m.M == nil {
 			st.check(False, "panic", "nil-map-write", "assignment to entry in nil map", instrPos(x))
 		}
+		st.noteMapAccess(g, m.M, true, x)
 		st.mapSet(m.M, st.get(fr, x.Key), st.get(fr, x.Value))
 	case *ssa.MakeMap:
 		mt := x.Type().Underlying().(*types.Map)
@@ -999,6 +1000,7 @@ func (st *State) lookup(fr *Frame, x *ssa.Lookup) Val {
 		return StrByte(s, idx)
 	}
 	m := base.(MapVal)
+	st.noteMapAccess(st.curG(), m.M, false, x)
 	key := st.get(fr, x.Index)
 	vt := x.X.Type().Underlying().(*types.Map).Elem()
 	i := -1
@@ -1021,6 +1023,7 @@ func (st *State) rangeInit(fr *Frame, x *ssa.Range) Val {
 	v := st.get(fr, x.X)
 	switch b := v.(type) {
 	case MapVal:
+		st.noteMapAccess(st.curG(), b.M, false, x)
 		it := &IterVal{}
 		if b.M != nil {
 			it.M = b.M
@@ -1134,7 +1137,7 @@ func (st *State) invokeVal(g *G, fr *Frame, res *ssa.Call, fnv Val, args []Val, 
 			ret := st.callBuiltin(fr, f, args, c, res)
 			return st.finishCall(g, fr, res, ret, isDefer)
 		default:
-			st.fail("engine-error", fmt.Sprintf("call of %T", fnv))
+			st.fail("engine-error", fmt.Sprintf("call of %T in %s at %s", fnv, fr.Fn, st.eng.pos(instrPos2(res, fr))))
 		}
 	}
 	name := fn.String()
@@ -1142,7 +1145,7 @@ func (st *State) invokeVal(g *G, fr *Frame, res *ssa.Call, fnv Val, args []Val, 
 		name = o.String()
 	}
 	ckind, cut := st.eng.Cfg.Cuts[name]
-	if cut && st.eng.isInternal(fn) && allConstArgs(args) && !strings.HasPrefix(ckind, "call:") {
+	if cut && st.eng.isInternal(fn) && allConstArgs(args) && (ckind == "uf" || ckind == "ufshrink" || ckind == "ufidem") {
 		cut = false // constant inputs: run the real body, constant folding is exact
 	}
 	if cut && strings.HasPrefix(ckind, "call:") {
@@ -1215,6 +1218,9 @@ func (st *State) finishCall(g *G, fr *Frame, res *ssa.Call, ret Val, isDefer boo
 func (st *State) callBuiltin(fr *Frame, b *ssa.Builtin, args []Val, c *ssa.CallCommon, res *ssa.Call) Val {
 	switch b.Name() {
 	case "len":
+		if mv, ok := args[0].(MapVal); ok && res != nil {
+			st.noteMapAccess(st.curG(), mv.M, false, res)
+		}
 		return st.lenOf(args[0])
 	case "cap":
 		switch x := args[0].(type) {
@@ -1241,6 +1247,7 @@ func (st *State) callBuiltin(fr *Frame, b *ssa.Builtin, args []Val, c *ssa.CallC
 		return BV(64, uint64(k))
 	case "delete":
 		m := args[0].(MapVal)
+		st.noteMapAccess(st.curG(), m.M, true, res)
 		st.mapDelete(m.M, args[1])
 		return nil
 	case "close":
